@@ -421,9 +421,14 @@ func (rQuery *RunningQueryState) withLockDeleteQuery() {
 		return
 	}
 
-	if !rQuery.isCancelled {
+	// Always release the timeout context: for a cancelled query its goroutine
+	// and timer would otherwise stay around until the query timeout expires.
+	// It is nil when the query never ran or when timeouts are disabled.
+	if rQuery.timeoutCancelFunc != nil {
 		rQuery.timeoutCancelFunc()
+	}
 
+	if !rQuery.isCancelled {
 		if rQuery.cleanupCallback != nil {
 			rQuery.cleanupCallback()
 		}
